@@ -84,6 +84,10 @@ class AlgebraicReductionRule(AbstractNaryRule):
                     continue
                 operands[index : index + 2] = new_ops
 
+                # a rule may produce an IdentityOperator, which is discarded as before the scan
+                if any(isinstance(op, IdentityOperator) for op in new_ops):
+                    operands = identity_rule.apply(operands)
+
                 # if the rule produces a HomothetyOperator, we deal with it first
                 if any(isinstance(op, HomothetyOperator) for op in new_ops):
                     operands = homothety_rule.apply(operands)
